@@ -723,6 +723,13 @@ class Gen:
         r, m = self.rng, self.m
         how = r.choice(["with_paths", "with_paths", "with_paths", "without_paths", "copy_freeze", "copy_unfreeze", "partial",
                         "replacing", "without_attributes"])
+        if how in ("with_paths", "without_attributes") and any(
+                m.objs[t].kind != "tuple" and any(v[0] == "r" and m.objs[v[1]].kind == "tuple" and m.objs[v[1]].frozen != m.objs[t].frozen
+                                                  for _, v in m.objs[t].attrs) for t in m.reach(o)):
+            # a tuple prior shared by owners of different flags (reachable only through a user-level shallow copy): the shallow
+            # copy inside without_attributes re-applies ITS owner's flag to the shared tuple, exactly as `restore shallow` does
+            # (916e580, modelled there); not repeated for the derived operations, which the model does not replay
+            return None
         if how in ("with_paths", "without_paths"):
             full = [pth for pth, _ in m.walk(["r", o], "prior")]
             if not full:
